@@ -27,7 +27,7 @@ avars == <<acfg, afd, aq, auth, areq, credit, unauth>>
 AInit == /\ acfg = [dns0x20 |-> 0] /\ afd = <<>> /\ aq = <<>> /\ auth = <<>> /\ areq = <<>> /\ credit = <<>> /\ unauth = <<>>
 
 SameQuestionA(rec, p) ==
-  /\ p.qt = rec.qt /\ p.qc = 1
+  /\ p.qt = rec.qt /\ p.qc = rec.qc
   /\ IF acfg.dns0x20 = 1 /\ ~rec.tcp THEN p.name = rec.name ELSE p.lname = rec.lname
 
 CookieWellFormed(rec, p) ==
@@ -59,5 +59,5 @@ DeliveryOk(t, m) ==
   LET pid == m \div 8 IN
   /\ pid \in DOMAIN auth
   /\ \/ auth[pid].t = t
-     \/ (t \in DOMAIN areq /\ auth[pid].lname = areq[t].lname /\ auth[pid].qt = areq[t].qt)   \* replayed from the cache
+     \/ (t \in DOMAIN areq /\ auth[pid].lname = areq[t].lname /\ auth[pid].qt = areq[t].qt /\ auth[pid].qc = areq[t].qc)   \* replayed from the cache
 =============================================================================
